@@ -111,7 +111,7 @@ func (s shadow) removeTree(p string) {
 	}
 }
 
-var perms = []uint32{0o644, 0o600, 0o755, 0o700, 0o777, 0o666, 0o444, 0o640}
+var perms = []uint32{0o644, 0o600, 0o755, 0o700, 0o777, 0o666, 0o444, 0o640, 0, 0o200, 0o001}
 
 func pickPerm(r *Rng) uint32 { return perms[r.Intn(len(perms))] }
 
